@@ -20,6 +20,7 @@ package harness
 //                                    mut ∈ {-, val, pow, fake}: altered value / power / invented report
 //   addfee <acct> <id> <amt> <bond01>  vote <acct> <id> <s|a|i>  wfr <acct> <payer> <id>  claim <acct> <id>
 //   evid <acct> <id> <R>             MsgAddEvidence
+//   sunjail <val>                    x/slashing MsgUnjail by the validator's operator (after `blk … abs=<val>` downtime)
 //   gov <kind> <args…>               a governance proposal carrying the privileged message, voted by all validators:
 //        mintinit | cyclelist <q,q,…> | oparams <minStake> | snaplimit <n> | spec <type> <window>
 //   direct <acct> <kind> <args…>     the same privileged message signed by an ordinary account (C19)
@@ -48,6 +49,7 @@ import (
 
 	sdk "github.com/cosmos/cosmos-sdk/types"
 	banktypes "github.com/cosmos/cosmos-sdk/x/bank/types"
+	slashingtypes "github.com/cosmos/cosmos-sdk/x/slashing/types"
 	stakingtypes "github.com/cosmos/cosmos-sdk/x/staking/types"
 )
 
@@ -258,6 +260,9 @@ func (h *Hist) Exec(op string) *BlockResult {
 	case "unjail":
 		a := h.acct(f[1])
 		h.queue(op, "unjail", a, 400000, nil, &reportertypes.MsgUnjailReporter{ReporterAddress: a.Addr.String()})
+	case "sunjail": // sunjail <val>: the validator's operator asks the slashing module to unjail it (after a downtime jail)
+		v := h.val(f[1])
+		h.queue(op, "sunjail", v.Acct, 400000, nil, &slashingtypes.MsgUnjail{ValidatorAddr: v.ValAddr.String()})
 	case "wtip":
 		a := h.acct(f[1])
 		h.queue(op, "wtip", a, 600000, nil, &reportertypes.MsgWithdrawTip{SelectorAddress: a.Addr.String(), ValidatorAddress: h.val(f[2]).ValAddr.String()})
